@@ -1897,4 +1897,129 @@ theorem sim_run' (ops : List Op) : ∀ (r : Repo), TameRun r ops → Inv r →
     rw [← h2, ← h1]
     exact ⟨by rw [i1], i2, i3⟩
 
+/-! ### map laws with association classes -/
+
+/-- what a successful creation does, also for association classes whose ends stay in the namespace -/
+theorem stepCreate_ok' {r r' : Repo} {nsArg : Option Name} {inst : Inst} {p : Path}
+    (ht : Tame r (.create nsArg inst)) (h : stepCreate r nsArg inst = (r', .path p)) :
+    ∃ e c, findNs r (effNs r nsArg) = some e ∧ findCls e.classes inst.cls = some c ∧
+      (inst.props.all (validProp e.classes c)) = true ∧
+      (c.isAssoc = true → checkRefsCreate r (adjustNames c inst.props) = none ∧
+         multiNs (adjustNames c inst.props) (effNs r nsArg) = []) ∧
+      newInstancePath c (adjustNames c inst.props) (effNs r nsArg) = .ok p ∧
+      lookupInst e.insts p = none ∧
+      r' = setInsts r (effNs r nsArg) (fun l => l ++ [{ key := p, path := p, inst := { cls := inst.cls, props := adjustNames c inst.props } }]) := by
+  unfold stepCreate at h
+  cases hns : findNs r (effNs r nsArg) with
+  | none => simp [hns, errNs] at h
+  | some e =>
+    cases hcl : findCls e.classes inst.cls with
+    | none => simp [hns, hcl, errClass] at h
+    | some c =>
+      by_cases hv : (inst.props.all (validProp e.classes c)) = true
+      · simp only [hns, hcl, hv, Bool.not_true, Bool.false_eq_true, ↓reduceIte] at h
+        have hloc : c.isAssoc = true → multiNs (adjustNames c inst.props) (effNs r nsArg) = [] := by
+          intro hca
+          rcases ht with hna | ⟨_, _, hl⟩
+          · have := hna e (findNs_mem hns).1 c (findCls_some hcl).1; rw [this] at hca; cases hca
+          · exact (multiNs_adjustNames c _ _).mpr hl
+        have single : ∀ (hs : createSingle r c { cls := inst.cls, props := adjustNames c inst.props } (effNs r nsArg) = (r', .path p)),
+            newInstancePath c (adjustNames c inst.props) (effNs r nsArg) = .ok p ∧ lookupInst e.insts p = none ∧
+            r' = setInsts r (effNs r nsArg) (fun l => l ++ [{ key := p, path := p, inst := { cls := inst.cls, props := adjustNames c inst.props } }]) := by
+          intro hs
+          unfold createSingle at hs
+          cases hnp : newInstancePath c (adjustNames c inst.props) (effNs r nsArg) with
+          | error ex => simp [hnp] at hs
+          | ok path =>
+            simp only [hnp, addNew, hns] at hs
+            cases hl : lookupInst e.insts path with
+            | some st => simp [hl, errExists] at hs
+            | none =>
+              simp only [hl, Option.isSome_none, Bool.false_eq_true, ↓reduceIte, Prod.mk.injEq, Out.path.injEq] at hs
+              obtain ⟨h1, h2⟩ := hs
+              subst h2
+              exact ⟨rfl, hl, h1.symm⟩
+        by_cases hca : c.isAssoc = true
+        · simp only [hca, ↓reduceIte] at h
+          cases hcr : checkRefsCreate r (adjustNames c inst.props) with
+          | some ex => simp [hcr] at h
+          | none =>
+            simp only [hcr, hloc hca, List.isEmpty_nil, ↓reduceIte] at h
+            obtain ⟨a, b, c'⟩ := single h
+            exact ⟨e, c, rfl, hcl, hv, fun _ => ⟨hcr, hloc hca⟩, a, b, c'⟩
+        · simp only [hca, Bool.false_eq_true, ↓reduceIte] at h
+          obtain ⟨a, b, c'⟩ := single h
+          exact ⟨e, c, rfl, hcl, hv, fun x => absurd x hca, a, b, c'⟩
+      · simp [hns, hcl, hv, errParam] at h
+
+theorem get_after_create' {r r' : Repo} {nsArg : Option Name} {inst : Inst} {p : Path} (pl : Option (List Name))
+    (ht : Tame r (.create nsArg inst)) (h : stepCreate r nsArg inst = (r', .path p)) :
+    ∃ c, (stepGet r' p pl).2 = .inst { cls := inst.cls, path := p, props := filterProps pl (adjustNames c inst.props) } := by
+  obtain ⟨e, c, hns, hcl, _, _, hnp, hl, rfl⟩ := stepCreate_ok' ht h
+  obtain ⟨hh, hn, hpc, _⟩ := newInstancePath_ok hnp
+  refine ⟨c, ?_⟩
+  unfold stepGet
+  have he : effNs r p.ns = effNs r nsArg := by simp [effNs, hn]
+  simp only [effNs_setInsts, he, findNs_setInsts, hns, Option.map_some, (nameEq_iff.mpr (findNs_mem hns).2), ↓reduceIte]
+  have hrp : reqPath (effNs r nsArg) p = p := path_eta_of hh hn
+  simp only [hrp, hpc, findCls_self hcl, Option.isNone_some, Bool.false_eq_true, ↓reduceIte]
+  rw [lookupInst_append_fresh hl _ rfl]
+
+theorem stepDelete_ok' {r r' : Repo} {path : Path} (hinv : Inv r)
+    (h : stepDelete r path = (r', .unit)) :
+    ∃ e c st, findNs r (effNs r path.ns) = some e ∧ findCls e.classes path.cls = some c ∧
+      lookupInst e.insts (reqPath (effNs r path.ns) path) = some st ∧
+      r' = setInsts r (effNs r path.ns) (fun l => deleteInst l (reqPath (effNs r path.ns) path)) := by
+  unfold stepDelete at h
+  have hp : (reqPath (effNs r path.ns) path).cls = path.cls := rfl
+  cases hns : findNs r (effNs r path.ns) with
+  | none => simp [hns, errNs] at h
+  | some e =>
+    cases hcl : findCls e.classes path.cls with
+    | none => simp [hns, hp, hcl, errClass] at h
+    | some c =>
+      cases hl : lookupInst e.insts (reqPath (effNs r path.ns) path) with
+      | none => simp [hns, hp, hcl, hl, errNotFound] at h
+      | some st =>
+        have hmem := findNs_mem hns
+        have hie := hinv.entries e hmem.1
+        have ⟨hst, hstk⟩ := lookupInst_some hl
+        have hoth : (if c.isAssoc then multiNs st.inst.props (effNs r path.ns) else []) = [] := by
+          by_cases hca : c.isAssoc = true
+          · simp only [hca, ↓reduceIte]
+            rw [multiNs_nil_congr hmem.2.symm]
+            refine hie.localRefs st hst c ?_ hca
+            rw [findCls_congr e.classes (normPath_eq_cls hstk)]; exact hcl
+          · simp [hca]
+        simp only [hns, hp, hcl, hl, hoth, List.isEmpty_nil, ↓reduceIte, Prod.mk.injEq, and_true] at h
+        exact ⟨e, c, st, by first | rfl | assumption, by first | rfl | assumption, by first | rfl | assumption, h.symm⟩
+
+theorem get_after_delete' {r r' : Repo} {path : Path} (pl : Option (List Name))
+    (hinv : Inv r) (h : stepDelete r path = (r', .unit)) :
+    (stepGet r' path pl).2 = errNotFound := by
+  obtain ⟨e, c, st, hns, hcl, hl, rfl⟩ := stepDelete_ok' hinv h
+  unfold stepGet
+  have hp : (reqPath (effNs r path.ns) path).cls = path.cls := rfl
+  simp only [effNs_setInsts, findNs_setInsts, hns, Option.map_some, (nameEq_iff.mpr (findNs_mem hns).2), ↓reduceIte, hp, hcl,
+    Option.isNone_some, Bool.false_eq_true, lookupInst_delete]
+
+theorem get_frame_delete' {r r' : Repo} {path q : Path} (pl : Option (List Name)) (hinv : Inv r)
+    (h : stepDelete r path = (r', .unit))
+    (hne : keyIn q (effNs r q.ns) ≠ keyIn path (effNs r path.ns)) :
+    (stepGet r' q pl).2 = (stepGet r q pl).2 := by
+  obtain ⟨e, c, st, hns, hcl, hl, rfl⟩ := stepDelete_ok' hinv h
+  rw [stepGet_snd, stepGet_snd]
+  simp only [effNs_setInsts, findNs_setInsts]
+  cases hq : findNs r (effNs r q.ns) with
+  | none => rfl
+  | some e1 =>
+    simp only [Option.map_some]
+    by_cases hn : nameEq e1.name (effNs r path.ns) = true
+    · simp only [hn, ↓reduceIte, getOut]
+      rw [lookupInst_delete_other]
+      intro heq
+      exact hne heq
+    · simp only [hn]
+      rfl
+
 end Proofs.Store
